@@ -75,12 +75,24 @@ def expect_add(mat, s1, s2):
 FN = {'complement': 'complement', 'wc': 'wc_complement', 'rcomplement': 'reverse_complement', 'rwc': 'reverse_wc_complement'}
 
 
+_CALLS = [0]
+
+
+def _fresh_str(m):
+    """an equal string that is a different object (what a caller gets from a config file, argparse or str.upper()):
+    every other call passes one, the rest pass the interned literal"""
+    _CALLS[0] += 1
+    return ''.join(list(m)) if _CALLS[0] % 2 else m
+
+
 def impl_op(iu, op):
     try:
         if op[0] == 'iupac.map':
-            return 'ok ' + getattr(iu, FN[op[1]])(op[3], material=op[2])
+            if _CALLS[0] % 3 == 0:
+                return 'ok ' + getattr(iu, FN[op[1]])(op[3], _fresh_str(op[2]))          # positional material
+            return 'ok ' + getattr(iu, FN[op[1]])(op[3], material=_fresh_str(op[2]))
         if op[0] == 'iupac.add':
-            r = iu.add_constraints(op[2], op[3], material=op[1])
+            r = iu.add_constraints(op[2], op[3], material=_fresh_str(op[1]))
             return 'none' if r is None else 'ok ' + r
     except Exception as e:
         return 'err ' + type(e).__name__
